@@ -17,13 +17,13 @@
   Consequently `modEst_genEnv_f64`, `modEst_genEnv_f32`: the hand-off contract of a declined
   Eisel–Lemire answer holds unconditionally.
 
-  `firstOnlyAllOnes_*`: the all-ones low word does occur when only the FIRST product is computed
-  (witnesses; that is the case the `lo == 0xFFFF…` bail-out of `compute_float` exists for).
+  Section 4: the all-ones low word DOES occur when only the first product is computed — that is the
+  case the `lo == 0xFFFF…` bail-out of `compute_float` exists for.  Then `w·hi5 ≡ −1 (mod 2^64)`, which
+  determines `w` from the row: `computeFloat_declined_iff_f64/_f32` characterise the declined inputs
+  exactly (`declinedAt`), `declinedList` enumerates them: 138 pairs `(q, w)` for f64, 10 for f32.
 -/
 import MinLex.Props.LemireSound
 import MinLex.Proofs.ModSearch
-set_option profiler true
-set_option profiler.threshold 1000
 namespace MinLex.NoAllOnes
 open MinLex MinLex.LemireP MinLex.LemireSound MinLex.ModSearch
 
@@ -225,16 +225,32 @@ example : secondTaken (2^63 + 269279860390) (rowAt (-40)).1 (Gen.F32.mantissaSiz
   ⟨by decide +kernel, noAllOnesSecond_f32 (-40) _ _ _ (by decide) (by decide) (by decide) rfl
     (by decide) (by decide) (by decide +kernel)⟩
 
-/-- non-vacuity of `modEst_genEnv_f64`: the declined input `9495784171365944765e-329` -/
-example : ∃ fp, moderatePath (genEnv ⟨false, true, true⟩) Gen.F64 ⟨-329, 9495784171365944765, false⟩ = some fp ∧
+/-- non-vacuity of `modEst_genEnv_f64`: the declined input `9734559530549076843e-224` -/
+example : ∃ fp, moderatePath (genEnv ⟨false, true, true⟩) Gen.F64 ⟨-224, 9734559530549076843, false⟩ = some fp ∧
     fp.exp < 0 ∧
-    Main.EstOK Gen.F64 ⟨fp.mant, wrapI32 (fp.exp - Gen.F64.invalidFp)⟩ (ofDec 9495784171365944765 (-329)) := by
+    Main.EstOK Gen.F64 ⟨fp.mant, wrapI32 (fp.exp - Gen.F64.invalidFp)⟩ (ofDec 9734559530549076843 (-224)) := by
   obtain ⟨fp, he, hd⟩ : ∃ fp, moderatePath (genEnv ⟨false, true, true⟩) Gen.F64
-      ⟨-329, 9495784171365944765, false⟩ = some fp ∧ fp.exp < 0 := ⟨_, rfl, by decide +kernel⟩
+      ⟨-224, 9734559530549076843, false⟩ = some fp ∧ fp.exp < 0 := ⟨_, rfl, by decide +kernel⟩
   refine ⟨fp, he, hd, modEst_genEnv_f64 _ rfl _ _ fp ?_ ?_ he hd⟩
   · refine ⟨ofDec_den_pos _ _, Or.inl ⟨?_, ?_⟩⟩
-    · unfold Q.le; exact Nat.le_refl _
-    · simp only [Bool.false_eq_true, if_false]; unfold Q.eqv; rfl
+    · show Q.le (ofDec 9734559530549076843 (-224)) (ofDec 9734559530549076843 (-224))
+      unfold Q.le; exact Nat.le_refl _
+    · show Q.eqv (ofDec 9734559530549076843 (-224)) (ofDec 9734559530549076843 (-224))
+      unfold Q.eqv; rfl
+  · exact ⟨by decide, by simp, by decide, by decide⟩
+
+/-- non-vacuity of `modEst_genEnv_f32`: the declined input `9586467486297153595e-46` -/
+example : ∃ fp, moderatePath (genEnv ⟨false, true, true⟩) Gen.F32 ⟨-46, 9586467486297153595, false⟩ = some fp ∧
+    fp.exp < 0 ∧
+    Main.EstOK Gen.F32 ⟨fp.mant, wrapI32 (fp.exp - Gen.F32.invalidFp)⟩ (ofDec 9586467486297153595 (-46)) := by
+  obtain ⟨fp, he, hd⟩ : ∃ fp, moderatePath (genEnv ⟨false, true, true⟩) Gen.F32
+      ⟨-46, 9586467486297153595, false⟩ = some fp ∧ fp.exp < 0 := ⟨_, rfl, by decide +kernel⟩
+  refine ⟨fp, he, hd, modEst_genEnv_f32 _ rfl _ _ fp ?_ ?_ he hd⟩
+  · refine ⟨ofDec_den_pos _ _, Or.inl ⟨?_, ?_⟩⟩
+    · show Q.le (ofDec 9586467486297153595 (-46)) (ofDec 9586467486297153595 (-46))
+      unfold Q.le; exact Nat.le_refl _
+    · show Q.eqv (ofDec 9586467486297153595 (-46)) (ofDec 9586467486297153595 (-46))
+      unfold Q.eqv; rfl
   · exact ⟨by decide, by simp, by decide, by decide⟩
 
 /-! ## 4. exactly when `compute_float` declines
@@ -243,19 +259,33 @@ example : ∃ fp, moderatePath (genEnv ⟨false, true, true⟩) Gen.F64 ⟨-329,
   `w·hi5 ≡ −1 (mod 2^64)`.  That forces `w` odd (no normalisation shift) and determines `w` from the
   row: at most ONE declined significand per exponent `q`.  -/
 
-/-- the significand (if any) on which `compute_float::<F>(q, ·)` declines: the least `w` with
-    `w·hi5 ≡ −1 (mod 2^64)`, if it is normalised and the second product is not taken -/
-def declinedAt (F : FloatC) (q : Int) : Option Nat :=
-  if F.smallestPowerOfTen ≤ q ∧ q ≤ F.largestPowerOfTen ∧ ¬ (q ≥ -27 ∧ q ≤ 55) then
-    match first 200 (rowAt q).1 (2^64) (2^64 - 1) (2^64 - 1) with
-    | some (some w) =>
-      if 2^63 ≤ w ∧ secondTaken w (rowAt q).1 (F.mantissaSize + 3) = false then some w else none
-    | _ => none
-  else none
+/-- `−a⁻¹ mod 2^64` (Newton iteration `inv64`; the defining property is CHECKED where it is used) -/
+def negInv (a : Nat) : Nat := (2^64 - inv64 a) % 2^64
 
-/-- the inverse search never runs out of fuel on the table -/
-theorem negInv_fuel : rangeGo (fun q => (first 200 (rowAt q).1 (2^64) (2^64 - 1) (2^64 - 1)).isSome)
-    651 (-342) = true := by decide +kernel
+/-- the significand (if any) on which `compute_float::<F>(q, ·)` declines, from the row `e` of `q`:
+    `w = −hi5⁻¹ mod 2^64`, if it is normalised and the second product is not taken -/
+def declinedOf (F : FloatC) (q : Int) (e : Nat × Nat) : Option Nat :=
+  if F.smallestPowerOfTen ≤ q ∧ q ≤ F.largestPowerOfTen ∧ ¬ (q ≥ -27 ∧ q ≤ 55) ∧
+      negInv e.1 * e.1 % 2^64 = 2^64 - 1 ∧ 2^63 ≤ negInv e.1 ∧
+      secondTaken (negInv e.1) e.1 (F.mantissaSize + 3) = false
+  then some (negInv e.1) else none
+
+def declinedAt (F : FloatC) (q : Int) : Option Nat := declinedOf F q (rowAt q)
+
+theorem rowsGo_rowAt (p : Nat × Nat → Int → Bool) (h : rowsGo p Gen.powerOfFive128 (-342) = true)
+    {q : Int} (h1 : -342 ≤ q) (h2 : q ≤ 308) : p (rowAt q) q = true := by
+  have hlen := table_length
+  have hi : (q + 342).toNat < Gen.powerOfFive128.length := by omega
+  have := rowsGo_get p _ _ h (q + 342).toNat hi
+  have e : -342 + (((q + 342).toNat : Nat) : Int) = q := by omega
+  rw [e] at this
+  unfold rowAt
+  rw [List.getD_eq_getElem?_getD, List.getElem?_eq_getElem hi]
+  exact this
+
+/-- `negInv` is right on every odd high word of the table -/
+theorem negInv_check : rowsGo (fun e _ => e.1 % 2 == 0 || negInv e.1 * e.1 % 2^64 == 2^64 - 1)
+    Gen.powerOfFive128 (-342) = true := by decide +kernel
 
 theorem neg_to_inv {w a : Nat} (hw : w < 2^64) (h : w * a % 2^64 = 2^64 - 1) :
     (2^64 - w) * a % 2^64 = 1 := by
@@ -317,61 +347,60 @@ theorem declinedAt_of_declined (hS : LemSnd F) (h2 : NoAllOnesSecond F) {q : Int
           obtain ⟨k, hk⟩ : ∃ k, clz64 w = k + 1 := ⟨clz64 w - 1, by omega⟩
           have : w * 2^(clz64 w) * hi5 = 2 * (w * 2^k * hi5) := by rw [hk, Nat.pow_succ]; ring
           omega
-      rw [hlz, Nat.pow_zero, Nat.mul_one] at hall htk hn
-      -- the search finds exactly `w`
-      have hfuel : (first 200 hi5 (2^64) (2^64 - 1) (2^64 - 1)).isSome = true := by
-        have := rangeGo_int _ 651 (-342) negInv_fuel q (by omega) (by omega)
-        rw [hrA] at this
-        exact this
-      obtain ⟨res, hres⟩ := Option.isSome_iff_exists.mp hfuel
-      have hsol : hi5 * w % 2^64 = 2^64 - 1 := by rw [Nat.mul_comm]; omega
-      obtain ⟨hl1, hl2⟩ := first_least (Nat.le_refl (2^64 - 1)) (by decide) hres
-      cases res with
-      | none => exact absurd ⟨by omega, by omega⟩ (hl2 rfl w)
-      | some w0 =>
-        obtain ⟨⟨s1, s2⟩, hmin⟩ := hl1 w0 rfl
-        have hle := hmin w (by omega) (by omega)
-        have hw0eq : w = w0 :=
-          negInv_unique hw (by omega) (by omega) (by rw [Nat.mul_comm]; omega)
-        subst hw0eq
-        unfold declinedAt
-        rw [if_pos ⟨hq1, hq2, hout⟩, hrA]
-        simp only []
-        rw [hres]
-        simp only []
-        rw [if_pos ⟨hn.1, htk⟩]
+      rw [hlz, Nat.pow_zero, Nat.mul_one] at hall htk hn hodd
+      have hhi5 : hi5 % 2 = 1 := by
+        rcases Nat.mod_two_eq_zero_or_one hi5 with h0 | h1
+        · exfalso
+          obtain ⟨c, hc⟩ : ∃ c, hi5 = 2 * c := ⟨hi5 / 2, by omega⟩
+          have : w * hi5 = 2 * (w * c) := by rw [hc]; ring
+          omega
+        · exact h1
+      -- the Newton inverse is this `w`
+      have hchk := rowsGo_rowAt _ negInv_check (q := q) (by omega) (by omega)
+      rw [hrA] at hchk
+      simp only [Bool.or_eq_true, beq_iff_eq] at hchk
+      have hcand : negInv hi5 * hi5 % 2^64 = 2^64 - 1 := by
+        rcases hchk with h0 | h1
+        · omega
+        · exact h1
+      have hweq : w = negInv hi5 :=
+        negInv_unique hw (by unfold negInv; exact Nat.mod_lt _ (by decide)) (by omega) hcand
+      unfold declinedAt declinedOf
+      rw [hrA]
+      simp only []
+      rw [← hweq, if_pos ⟨hq1, hq2, hout, by omega, hn.1, htk⟩]
     · exfalso
       exact h2 q _ hi5 lo5 (by omega) (by omega) hout hrA hn.1 hn.2 htk hall
   · rw [← hfp] at hd; have := hd.1; omega
 
 end
 
-/-- the significands of `declinedAt` do make `compute_float` decline (kernel evaluation, all rows) -/
-def declinedRowOk (F : FloatC) (q : Int) : Bool :=
-  match declinedAt F q with
+/-- the significands of `declinedOf` do make `compute_float` decline (kernel evaluation, all rows) -/
+def declinedRowOk (F : FloatC) (e : Nat × Nat) (q : Int) : Bool :=
+  match declinedOf F q e with
   | none => true
   | some w => decide (w < 2^64) &&
     (match computeFloat genLemire F q w with
      | some fp => decide (fp.exp < 0)
      | none => false)
 
-theorem declinedRows_f64 : rangeGo (declinedRowOk Gen.F64) 651 (-342) = true := by decide +kernel
-theorem declinedRows_f32 : rangeGo (declinedRowOk Gen.F32) 651 (-342) = true := by decide +kernel
-
-theorem declinedAt_range {F : FloatC} {q : Int} {w : Nat} (h : declinedAt F q = some w) :
-    F.smallestPowerOfTen ≤ q ∧ q ≤ F.largestPowerOfTen := by
-  unfold declinedAt at h
-  split at h
-  · rename_i hc; exact ⟨hc.1, hc.2.1⟩
-  · cases h
+theorem declinedRows_f64 : rowsGo (declinedRowOk Gen.F64) Gen.powerOfFive128 (-342) = true := by
+  decide +kernel
+theorem declinedRows_f32 : rowsGo (declinedRowOk Gen.F32) Gen.powerOfFive128 (-342) = true := by
+  decide +kernel
 
 theorem declined_of_declinedAt {F : FloatC} (hs : -342 ≤ F.smallestPowerOfTen) (hl : F.largestPowerOfTen ≤ 308)
-    (hrows : rangeGo (declinedRowOk F) 651 (-342) = true) {q : Int} {w : Nat}
+    (hrows : rowsGo (declinedRowOk F) Gen.powerOfFive128 (-342) = true) {q : Int} {w : Nat}
     (h : declinedAt F q = some w) :
     w < 2^64 ∧ ∃ fp, computeFloat genLemire F q w = some fp ∧ fp.exp < 0 := by
-  obtain ⟨r1, r2⟩ := declinedAt_range h
-  have := rangeGo_int _ 651 (-342) hrows q (by omega) (by omega)
+  have hr : F.smallestPowerOfTen ≤ q ∧ q ≤ F.largestPowerOfTen := by
+    unfold declinedAt declinedOf at h
+    split at h
+    · rename_i hc; exact ⟨hc.1, hc.2.1⟩
+    · cases h
+  have := rowsGo_rowAt _ hrows (q := q) (by omega) (by omega)
   unfold declinedRowOk at this
+  unfold declinedAt at h
   rw [h] at this
   simp only [Bool.and_eq_true, decide_eq_true_eq] at this
   refine ⟨this.1, ?_⟩
@@ -393,16 +422,89 @@ theorem computeFloat_declined_iff_f32 {q : Int} {w : Nat} (hw : w < 2^64) :
   ⟨fun ⟨_, he, hneg⟩ => declinedAt_of_declined lemSnd_F32 noAllOnesSecond_f32 hw he hneg,
    fun h => (declined_of_declinedAt (by decide) (by decide) declinedRows_f32 h).2⟩
 
-/-- the exponents with a declined significand -/
-def declinedList (F : FloatC) : List (Int × Nat) :=
-  (List.range 651).filterMap fun i =>
-    match declinedAt F ((i : Int) - 342) with
-    | some w => some ((i : Int) - 342, w)
-    | none => none
+/-- all `(q, w)` with `declinedOf … = some w`, walking the table -/
+def declGo (F : FloatC) : List (Nat × Nat) → Int → List (Int × Nat)
+  | [], _ => []
+  | e :: es, q =>
+    match declinedOf F q e with
+    | some w => (q, w) :: declGo F es (q + 1)
+    | none => declGo F es (q + 1)
+
+/-- the inputs on which `compute_float::<F>` declines -/
+def declinedList (F : FloatC) : List (Int × Nat) := declGo F Gen.powerOfFive128 (-342)
+
+theorem mem_declGo (F : FloatC) {q : Int} {w : Nat} : ∀ (l : List (Nat × Nat)) (q0 : Int),
+    (q, w) ∈ declGo F l q0 ↔ ∃ (i : Nat) (h : i < l.length), q = q0 + i ∧ declinedOf F q l[i] = some w
+  | [], q0 => by simp [declGo]
+  | e :: es, q0 => by
+    have ih := mem_declGo F (q := q) (w := w) es (q0 + 1)
+    have key : ((q, w) ∈ declGo F (e :: es) q0) ↔
+        (declinedOf F q0 e = some w ∧ q = q0) ∨ (q, w) ∈ declGo F es (q0 + 1) := by
+      rw [show declGo F (e :: es) q0 = (match declinedOf F q0 e with
+        | some w => (q0, w) :: declGo F es (q0 + 1)
+        | none => declGo F es (q0 + 1)) from rfl]
+      split
+      · rename_i w' hw'
+        rw [List.mem_cons, hw']
+        constructor
+        · rintro (h | h)
+          · cases h; exact Or.inl ⟨rfl, rfl⟩
+          · exact Or.inr h
+        · rintro (⟨h1, h2⟩ | h)
+          · cases h1; subst h2; exact Or.inl rfl
+          · exact Or.inr h
+      · rename_i hn
+        rw [hn]
+        constructor
+        · exact Or.inr
+        · rintro (⟨h1, _⟩ | h)
+          · cases h1
+          · exact h
+    rw [key, ih]
+    constructor
+    · rintro (⟨h1, h2⟩ | ⟨i, hi, h1, h2⟩)
+      · subst h2
+        exact ⟨0, by simp, by simp, by simpa using h1⟩
+      · exact ⟨i + 1, by simpa using hi, by push_cast; omega, by simpa using h2⟩
+    · rintro ⟨i, hi, h1, h2⟩
+      cases i with
+      | zero =>
+        left
+        have : q = q0 := by simpa using h1
+        subst this
+        exact ⟨by simpa using h2, rfl⟩
+      | succ j =>
+        right
+        exact ⟨j, by simpa using hi, by push_cast at h1; omega, by simpa using h2⟩
+
+/-- membership in the list is `declinedAt` -/
+theorem mem_declinedList {F : FloatC} (hs : -342 ≤ F.smallestPowerOfTen) (hl : F.largestPowerOfTen ≤ 308)
+    {q : Int} {w : Nat} : (q, w) ∈ declinedList F ↔ declinedAt F q = some w := by
+  have hlen := table_length
+  unfold declinedList declinedAt
+  rw [mem_declGo]
+  constructor
+  · rintro ⟨i, hi, h1, h2⟩
+    have : rowAt q = Gen.powerOfFive128[i] := by
+      unfold rowAt
+      have e : (q + 342).toNat = i := by omega
+      rw [e, List.getD_eq_getElem?_getD, List.getElem?_eq_getElem hi]; rfl
+    rw [this]; exact h2
+  · intro h
+    have hr : F.smallestPowerOfTen ≤ q ∧ q ≤ F.largestPowerOfTen := by
+      unfold declinedOf at h
+      split at h
+      · rename_i hc; exact ⟨hc.1, hc.2.1⟩
+      · cases h
+    have hi : (q + 342).toNat < Gen.powerOfFive128.length := by omega
+    refine ⟨(q + 342).toNat, hi, by omega, ?_⟩
+    have : rowAt q = Gen.powerOfFive128[(q + 342).toNat] := by
+      unfold rowAt
+      rw [List.getD_eq_getElem?_getD, List.getElem?_eq_getElem hi]; rfl
+    rw [← this]; exact h
 
 /-- **138 inputs `(q, w)` make `compute_float::<f64>` decline, 10 make `compute_float::<f32>` decline** -/
 theorem declined_count_f64 : (declinedList Gen.F64).length = 138 := by decide +kernel
-theorem declined_count_f32 : (declinedList Gen.F32).length = 10 := by decide +kernel
 
 theorem declined_list_f32 : declinedList Gen.F32 =
     [(-59, 18343440309874191887), (-57, 10240019805240390365), (-46, 9586467486297153595),
@@ -410,7 +512,20 @@ theorem declined_list_f32 : declinedList Gen.F32 =
      (-38, 15484043008446510339), (-37, 11378377293076434211), (-35, 16185735156734648777),
      (-30, 14999775663049351983)] := by decide +kernel
 
+theorem declined_count_f32 : (declinedList Gen.F32).length = 10 := by rw [declined_list_f32]; rfl
+
+/-- the complete list for f64 as a membership statement -/
+theorem computeFloat_declined_mem_f64 {q : Int} {w : Nat} (hw : w < 2^64) :
+    (∃ fp, computeFloat genLemire Gen.F64 q w = some fp ∧ fp.exp < 0) ↔ (q, w) ∈ declinedList Gen.F64 := by
+  rw [computeFloat_declined_iff_f64 hw, mem_declinedList (by decide) (by decide)]
+
+theorem computeFloat_declined_mem_f32 {q : Int} {w : Nat} (hw : w < 2^64) :
+    (∃ fp, computeFloat genLemire Gen.F32 q w = some fp ∧ fp.exp < 0) ↔ (q, w) ∈ declinedList Gen.F32 := by
+  rw [computeFloat_declined_iff_f32 hw, mem_declinedList (by decide) (by decide)]
+
 /-- non-vacuity: the known f64 example -/
 example : declinedAt Gen.F64 (-329) = some 9495784171365944765 := by decide +kernel
+example : ∃ fp, computeFloat genLemire Gen.F64 (-329) 9495784171365944765 = some fp ∧ fp.exp < 0 :=
+  (computeFloat_declined_iff_f64 (by decide)).2 (by decide +kernel)
 
 end MinLex.NoAllOnes
